@@ -93,6 +93,7 @@ type interpreter struct {
 	lenient            bool // executing a package initialiser leniently
 	nativeMemo         map[nativeKey]*value
 	anonByPos  map[string]*ssa.Function
+	jsonFrame  *frame // frame of the json.Unmarshal call being modelled (for calling UnmarshalJSON methods)
 	curFn      *ssa.Function // function of the binary operation being evaluated (diagnostics)
 	importing          bool
 	registry           map[*value]bool // cells of natively imported shared definitions
